@@ -839,7 +839,7 @@ func (t *State) GetLDB() kvdb.Database {
 }
 
 func (t *State) ClearCache() {
-	t.utxo.UtxoCache = utxo.NewUtxoCache(t.utxo.CacheSize)
+	t.utxo.UtxoCache.Reset()
 	t.utxo.PrevFoundKeyCache = cache.NewLRUCache(t.utxo.CacheSize)
 	t.clearBalanceCache()
 	t.xmodel.CleanCache()
